@@ -220,12 +220,15 @@ BAD_RE = re.compile(r'^<<"BAD", (\d+), (\d+), "([^"]*)", "([^"]*)">>')
 NOTE_RE = re.compile(r'^<<"NOTE", (.*)>>$')
 
 
-def validate(trace_module, cfg, files, timeout=3000, xmx="3g", par=None):
+def validate(trace_module, cfg, files, timeout=3000, xmx="3g", par=None, extra_env=None):
     """R3: TLC validates each shard.  Returns (bad list, events consumed, notes)."""
     t0 = time.time()
 
     def one(path):
-        out, rc = tlc(trace_module, cfg, workers=1, env={"TRACE": path}, timeout=timeout, xmx=xmx)
+        env = {"TRACE": path}
+        if extra_env:
+            env.update(extra_env)
+        out, rc = tlc(trace_module, cfg, workers=1, env=env, timeout=timeout, xmx=xmx)
         m = re.search(r'<<"TRACE-CONSUMED", (\d+)>>', out)
         if rc != 0 or not m:
             raise Infra("trace validation of %s did not complete (rc=%s):\n%s" % (path, rc, out[-3000:]))
